@@ -207,7 +207,7 @@ def _e13(P):
     return z3.Implies(E.f_insub(P), z3.And(E.f_insub(E.f_neg(P)), (E.f_neg(P) == E.c_O) == (P == E.c_O)))
 
 
-@lemma("ed_cofactor", 1, False, "M-edgroup (T2, cited): #E(F_Q) = 8L, hence L*(8*P) = O for every curve point P")
+@lemma("ed_cofactor", 1, False, "T2 (cited, RFC 8032 / Bernstein et al.): #E(F_Q) = 8L, hence L*(8*P) = O for every curve point P (only used to show that the L-torsion assert in arbitrary_element never fires)")
 def _e14(P):
     E = _ed()
     return E.f_mul(sym.IV(E.L), E.f_mul(sym.IV(8), P)) == E.c_O
